@@ -27,13 +27,20 @@ def ofExc : Exc → Sexp
   | .valueError => .atom "ValueError" | .osError => .atom "OSError" | .unicodeDecodeError => .atom "UnicodeDecodeError"
   | .indexError => .atom "IndexError"
 
-def streamIn? : List Sexp → Option StreamIn
+def streamIn9? : List Sexp → Option StreamIn
   | [f, d0, d1, p0, cs, sk, bn, it, caps] => do
     let i : StreamIn :=
       { isFile := ← bool? f, data0 := ← bytes? d0, data1 := ← opt? bytes? d1, pos0 := ← nat? p0, chunkSize := ← nat? cs,
         seekTo := ← opt? (pair? int? nat?) sk, bufferNow := ← bool? bn, iters := ← nat? it, caps := ← list? nat? caps }
     some i
   | _ => none
+
+/-- the tenth field (`c == c` evaluations after the consumptions) is optional: older corpus entries have nine -/
+def streamIn? : List Sexp → Option StreamIn
+  | [f, d0, d1, p0, cs, sk, bn, it, caps, eqs] => do
+    let i ← streamIn9? [f, d0, d1, p0, cs, sk, bn, it, caps]
+    some { i with eqs := ← nat? eqs }
+  | l => streamIn9? l
 
 def ct? : List Sexp → Option CT
   | [t, s, ps] => do
@@ -70,6 +77,7 @@ def ev? : Sexp → Option Ev
   | .list [.atom "read", n, g] => do some (.read (← nat? n) (← nat? g))
   | .list [.atom "chunk", b] => (bytes? b).map .chunk
   | .list [.atom "raised", e] => (exc? e).map .raised
+  | .list [.atom "eqSelf", b] => (bool? b).map .eqSelf
   | _ => none
 def ofEv : Ev → Sexp
   | .opened => .atom "opened" | .closed => .atom "closed" | .made => .atom "made" | .iter => .atom "iter"
@@ -78,6 +86,7 @@ def ofEv : Ev → Sexp
   | .read n g => tag "read" [ofNat n, ofNat g]
   | .chunk b => tag "chunk" [ofNats b]
   | .raised e => tag "raised" [ofExc e]
+  | .eqSelf b => tag "eqSelf" [ofBool b]
 
 def params? (s : Sexp) : Option (List (Text × Text)) := list? (pair? (list? nat?) (list? nat?)) s
 def ofParams (ps : List (Text × Text)) : Sexp := ofList (ofPair ofNats ofNats) ps
@@ -104,7 +113,7 @@ def trace? : Sexp → Option Trace
   | .list [.atom "json", c, t, l] => do some (.json (← list? bytes? c) (← bool? t) (← bool? l))
   | .list [.atom "decode", a, ae, p, e, w] => do
       some (.decode (← opt? (list? nat?) a) (← opt? exc? ae) (← opt? (list? (list? nat?)) p) (← opt? exc? e) (← opt? (list? nat?) w))
-  | .list [.atom "stream", evs] => (list? ev? evs).map .stream
+  | .list [.atom "stream", evs, eqEvs] => do some (.stream (← list? ev? evs) (← list? ev? eqEvs))
   | .list [.atom "ctype", r, p] => do some (.ctype (← list? nat? r) (← parsed? p))
   | .list [.atom "ctypeSeq", rs] => (list? (pair? (list? nat?) parsed?) rs).map .ctypeSeq
   | .list [.atom "copy", obs] => (list? obs? obs).map .copy
@@ -115,7 +124,7 @@ def ofTrace : Trace → Sexp
   | .text c t a => tag "text" [ofList ofNats c, ofBool t, ofOpt ofNats a]
   | .json c t l => tag "json" [ofList ofNats c, ofBool t, ofBool l]
   | .decode a ae p e w => tag "decode" [ofOpt ofNats a, ofOpt ofExc ae, ofOpt (ofList ofNats) p, ofOpt ofExc e, ofOpt ofNats w]
-  | .stream evs => tag "stream" [ofList ofEv evs]
+  | .stream evs eqEvs => tag "stream" [ofList ofEv evs, ofList ofEv eqEvs]
   | .ctype r p => tag "ctype" [ofNats r, ofParsed p]
   | .ctypeSeq rs => tag "ctypeSeq" [ofList (ofPair ofNats ofParsed) rs]
   | .copy obs => tag "copy" [ofList ofObs obs]
